@@ -623,8 +623,6 @@ func zzChange(c *Client, cur, next []Tunnel, reload bool) []Tunnel {
 	return cur
 }
 
-
-
 // zzProbe: two new connections (raw stream, then HTTP) for one arbitrary hostname.
 func zzProbe(c *Client, cur []Tunnel, when string) {
 	h := string(rt.BytesN("probe-hostname", 1))
@@ -654,8 +652,8 @@ func ZZ_C44_Step() {
 	if !reload {
 		rt.Assert(zzSaves == 1 && len(zzSaved) == len(next), "rebuild-persists-the-new-list")
 	}
-	zzCheckCache(c, cur, "after-change")
 	zzProbe(c, cur, "after-change")
+	zzCheckCache(c, cur, "after-change")
 	rt.Reach("end")
 }
 
@@ -759,8 +757,8 @@ func ZZ_C44_Race() {
 	}
 
 	// afterwards: the cache and any new connection follow the new configuration
-	zzCheckCache(c, next, "after-race")
 	zzProbe(c, next, "after-race")
+	zzCheckCache(c, next, "after-race")
 	rt.Reach("end")
 }
 
